@@ -47,6 +47,7 @@ def run(ctx, repo):
         'jsonschema assumed deterministic).  (R3) every $ref under json/ is local and names an existing file.')
     ctx.rule('R1', 'the memo dicts are the only module state written by the validation helpers')
     ctx.rule('R2', 'memo transparency: no cache store depends on a non-key parameter; hits return the stored value; eviction only removes')
+    ctx.rule('R4', 'the eviction of _add_to_cache uses only operations that every cache passed to it supports')
     ctx.rule('R3', 'every $ref in json/** is "#..." or "file:///json/..." naming an existing file')
     muts = module_mutables(mod)
     caches = set()
@@ -184,6 +185,31 @@ def run(ctx, repo):
     ctx.floor('cache store sites', n_store, 2)
     # eviction
     atc = mod.func('_add_to_cache')
+    # R4 the eviction uses only what every cache passed in supports: popitem(last=...) exists on OrderedDict only
+    cparam = atc.args.args[0].arg
+    kw_pop = [c for c in ast.walk(atc) if isinstance(c, ast.Call) and isinstance(c.func, ast.Attribute) and c.func.attr in ('popitem', 'move_to_end')
+              and isinstance(c.func.value, ast.Name) and c.func.value.id == cparam and (c.keywords or c.args or c.func.attr == 'move_to_end')]
+    cache_inits = {}
+    for st in mod.tree.body:
+        if isinstance(st, (ast.Assign, ast.AnnAssign)) and st.value is not None:
+            for t in (st.targets if isinstance(st, ast.Assign) else [st.target]):
+                if isinstance(t, ast.Name):
+                    cache_inits[t.id] = st.value
+    passed = sorted({c.args[0].id for f_ in mod.functions.values() for c in ast.walk(f_) if isinstance(c, ast.Call) and call_name(c) == '_add_to_cache'
+                     and c.args and isinstance(c.args[0], ast.Name)})
+    for c in kw_pop:
+        for nm in passed:
+            init = cache_inits.get(nm)
+            ordered = isinstance(init, ast.Call) and call_name(init) == 'OrderedDict'
+            if not ordered:
+                ctx.finding('R4', '%s::_add_to_cache::%s on %s' % (UTILS, ast.unparse(c), nm), UTILS, c.lineno,
+                            '_add_to_cache evicts with `%s`, which only an OrderedDict supports, but the cache %s is created as `%s`: the first '
+                            'eviction (the 21st distinct entry) raises TypeError, and from then on every call that would store a result fails'
+                            % (ast.unparse(c), nm, ast.unparse(init) if init is not None else '?'), 'the 21st distinct successful validation in one process')
+    if kw_pop and not any(f.rule == 'R4' for f in ctx.findings):
+        ctx.ok('R4', 'ordered eviction on caches that are all OrderedDicts (%s)' % passed)
+    elif not kw_pop:
+        ctx.ok('R4', 'eviction uses plain dict operations; caches passed: %s' % passed)
     cparam = atc.args.args[0].arg
     ops = []
     for n in ast.walk(atc):
